@@ -9,7 +9,9 @@
 
 #include <unifex/inline_scheduler.hpp>
 #include <unifex/manual_event_loop.hpp>
+#include <unifex/any_scheduler.hpp>
 #include <unifex/new_thread_context.hpp>
+#include <unifex/timed_single_thread_context.hpp>
 #include <unifex/scheduler_concepts.hpp>
 #include <unifex/single_thread_context.hpp>
 #include <unifex/static_thread_pool.hpp>
@@ -63,6 +65,7 @@ struct Script {
   std::vector<std::vector<int>> prod;   // item ids per producer
   std::vector<Item> proto;
   std::vector<std::pair<int, int>> stops;
+  int variant = 0;                      // 0 plain; 1 the scheduler wrapped in any_scheduler (ctx 0, 2); 2 timed_single_thread_context's schedule() instead of single_thread_context (ctx 0)
   bool wait_all = false;                // wait until every started item has completed before shutting down (exposes lost wake-ups)
   int shutdown_yields = 0;              // how long the main thread waits (in yields) after the last start() before stopping / destroying
 };
@@ -86,12 +89,14 @@ Script decode(vk::Choice& c) {
   for (size_t i = 0; i < s.proto.size(); ++i) if (s.proto[i].stop_mode == 2) s.stops.emplace_back((int)i, (int)c.upto(10));
   s.shutdown_yields = (int)c.upto(6);
   s.wait_all = c.flag();
+  // derived from the hash (no bytes consumed; --legacy=1 keeps recorded byte strings on the plain variant)
+  if (vk::ctx().argi("legacy", 0) == 0) { uint64_t h = c.h; if (h % 4 == 1 && (s.ctx == 0 || s.ctx == 2)) s.variant = 1; else if (h % 4 == 2 && s.ctx == 0) s.variant = 2; c.mix((uint64_t)s.variant + 11); }
   return s;
 }
 
 std::string describe(const Script& s) {
   static const char* cn[] = {"single_thread_context", "manual_event_loop+run()+stop()", "static_thread_pool", "new_thread_context"};
-  std::string d = vk::sfmt("%s%s, %d producers:", cn[s.ctx], s.ctx == 2 ? vk::sfmt("(%d)", s.pool_threads).c_str() : "", s.P);
+  std::string d = vk::sfmt("%s%s%s, %d producers:", s.variant == 2 ? "timed_single_thread_context" : cn[s.ctx], s.ctx == 2 ? vk::sfmt("(%d)", s.pool_threads).c_str() : "", s.variant == 1 ? " through any_scheduler" : "", s.P);
   for (int p = 0; p < s.P; ++p) {
     d += vk::sfmt(" P%d[", p);
     for (int i : s.prod[(size_t)p]) d += vk::sfmt("#%d%s ", i, s.proto[(size_t)i].stop_mode == 1 ? ":pre-stopped" : s.proto[(size_t)i].stop_mode == 2 ? ":stopper" : "");
@@ -176,7 +181,51 @@ void run_script(const Script& sc, bool check, bool& nontrivial) {
   int first = threads_before, last = 0;
   bool fifo = false;
 
-  if (sc.ctx == 0) {
+  if (sc.ctx == 0 && sc.variant == 2) {
+    std::vector<std::unique_ptr<dk::OpBox<connect_result_t<decltype(schedule(std::declval<timed_single_thread_context&>().get_scheduler())), Rcv>>>> boxes;
+    {
+      timed_single_thread_context ctx;
+      last = detsched::thread_count();
+      produce(W, sc, ctx.get_scheduler(), producers, boxes);
+      start_stopper();
+      join_all();
+      for (int k = 0; k < sc.shutdown_yields; ++k) detsched::yield_now();
+      // (a timed context's destructor does not drain: items still queued would be lost by construction, so wait for them first)
+      dk::wait_for([&] { for (auto& it : W.items) if (it.t_start_begin >= 0 && it.signals == 0) return false; return true; });
+      cx.tr("main: destroying timed_single_thread_context");
+    }
+    if (detsched::live_threads() != 1) cx.fail(P, "thread_not_joined", "timed_single_thread_context destructor returned but %d thread(s) it created are still alive", detsched::live_threads() - 1);
+    for (auto& b : boxes) if (b) b->reset();
+  } else if (sc.ctx == 0 && sc.variant == 1) {
+    std::vector<std::unique_ptr<dk::OpBox<connect_result_t<decltype(schedule(std::declval<any_scheduler&>())), Rcv>>>> boxes;
+    {
+      single_thread_context ctx;
+      last = detsched::thread_count();
+      any_scheduler as = ctx.get_scheduler();
+      produce(W, sc, as, producers, boxes);
+      start_stopper();
+      join_all();
+      for (int k = 0; k < sc.shutdown_yields; ++k) detsched::yield_now();
+      cx.tr("main: destroying single_thread_context (scheduled through any_scheduler)");
+    }
+    if (detsched::live_threads() != 1) cx.fail(P, "thread_not_joined", "single_thread_context destructor returned but %d thread(s) it created are still alive", detsched::live_threads() - 1);
+    fifo = true;
+    for (auto& b : boxes) if (b) b->reset();
+  } else if (sc.ctx == 2 && sc.variant == 1) {
+    std::vector<std::unique_ptr<dk::OpBox<connect_result_t<decltype(schedule(std::declval<any_scheduler&>())), Rcv>>>> boxes;
+    {
+      static_thread_pool pool((std::uint32_t)sc.pool_threads);
+      last = detsched::thread_count();
+      any_scheduler as = pool.get_scheduler();
+      produce(W, sc, as, producers, boxes);
+      start_stopper();
+      join_all();
+      for (int k = 0; k < sc.shutdown_yields; ++k) detsched::yield_now();
+      cx.tr("main: destroying static_thread_pool (scheduled through any_scheduler)");
+    }
+    if (detsched::live_threads() != 1) cx.fail(P, "thread_not_joined", "static_thread_pool destructor returned but %d thread(s) it created are still alive", detsched::live_threads() - 1);
+    for (auto& b : boxes) if (b) b->reset();
+  } else if (sc.ctx == 0) {
     std::vector<std::unique_ptr<dk::OpBox<connect_result_t<decltype(schedule(std::declval<single_thread_context&>().get_scheduler())), Rcv>>>> boxes;
     {
       single_thread_context ctx;
@@ -319,7 +368,7 @@ void vk_run_case(vk::Choice& c) {
   auto res = detsched::run(c, o, [&] { bool dry = detsched::in_dry_run(); bool ig = false; run_script(sc, !dry, dry ? ig : nt); });
   cx.desc += " | " + res.schedule;
   cx.nontrivial = nt && !res.inconclusive;
-  cx.label(vk::sfmt("ctx%d", sc.ctx));
+  cx.label(vk::sfmt("ctx%d", sc.ctx)); if (sc.variant == 1) cx.label("through-any_scheduler"); if (sc.variant == 2) cx.label("timed_single_thread_context");
   if (res.inconclusive) cx.label("inconclusive(step budget)");
   if (res.preemptions) cx.label("preempted");
 }
